@@ -112,6 +112,8 @@ def worker_configs(seed, n):
     used = {0}
     while len(cfgs) < n:
         h = rng.randrange(1, 2 ** 32)
+        # workers 1, 5, 9, 13: hash seed = 3 (mod 4), which HeteroPool starts with asserts stripped (python -O)
+        h = (h | 3) if len(cfgs) % 4 == 1 else (h ^ 1 if h % 4 == 3 else h)
         if h in used:
             continue
         used.add(h)
@@ -386,7 +388,9 @@ def run(ctx):
         "unconfirmed_candidates": unconfirmed[:10],
         "fidelity_checked_workloads": fidelity_checked,
         "fault_kinds": {"set_iteration_permutation": perms_applied, "hash_seed_change": (n_real - 1) * n_w,
-                        "simulated_address_layout": n_real * n_w, "clock_jump": clock["reads"]},
+                        "simulated_address_layout": n_real * n_w, "clock_jump": clock["reads"],
+                        "interpreter_with_asserts_stripped": sum(1 for c in cfgs if c[0] % 4 == 3) * n_w,
+                        "same_command_twice_relative_paths_o": LAYER_STATS.get("twice", 0)},
         "cli_subprocess_runs": cli_runs,
         "simulated_time": clock,
         "reach_warnings": warn,
@@ -422,6 +426,9 @@ def normalise_cli(text):
     head = [(ln.split(" at ", 1)[0] + " at <timestamp>" if ln.startswith("generated by json2python-models") else ln)
             for ln in head]
     return "\n".join(head), rest
+
+
+LAYER_STATS = {}
 
 
 def cli_env(hs, scratch):
@@ -581,6 +588,7 @@ def cli_layer(ctx, rep, workloads, n):
         rerun = [j for j in sorted(first_task) if j % 4 == 0]
         with ThreadPoolExecutor(max_workers=max(2, ctx.jobs)) as ex:
             results3 = list(ex.map(twice, rerun))
+        LAYER_STATS["twice"] = len(results3)
         for j, argv, outs in results3:
             if outs[0] != outs[1]:
                 rep.violation("cli-subprocess-twice:" + seeds.digest(picks[j])[:10], {
